@@ -288,8 +288,12 @@ KnotsStep(ev) ==
         \* (a segment's duration is the difference of its breakpoints, up to the rounding of however the implementation obtains it)
         sd == Cand("C01", "knot.segdur", Len(ev.out.segdur) = N /\ \A i \in 1..N :
                        RLe(RAbs(RSub(H(ev.out.segdur[i]), RSub(o.bp[i + 1], o.bp[i]))), RMul("2", UlpOfMax(o.bp[i + 1], o.bp[i]))), info("sd", 0, 0))
-        cands == <<sd>> \o (IF w THEN kpos \o lpos \o rpos \o bstart \o bend \o both ELSE <<>>)
-    IN StepRec(cands, <<"knot_queries">>, memo, obs)
+        \* identical bits whatever was asked before and in whatever order the knots are visited (C10); kj = the highest derivative
+        \* of the pieces at the knots, which jumps there: evaluation at a knot belongs to the piece that starts at it
+        kkey == <<"knots", o.key, o.t0>>
+        kval == [kv |-> ev.out.kv, lv |-> ev.out.lv, rv |-> ev.out.rv, kj |-> IF Has(ev.out, "kj") THEN ev.out.kj ELSE <<>>]
+        cands == <<sd, MemoCand("C10", "memo.knots", kkey, kval, info("memo", 0, 0))>> \o (IF w THEN kpos \o lpos \o rpos \o bstart \o bend \o both ELSE <<>>)
+    IN StepRec(cands, <<"knot_queries">>, MemoPut(memo, kkey, kval), obs)
 TrKnots == IsEvent("knots") /\ sc' = KnotsStep(Ev) /\ Query(Ev.obj, "knots") /\ Record
 
 \* energy = exact integral of the squared s-th derivative of the PUBLISHED polynomials (any positive durations)
